@@ -44,7 +44,8 @@ class TracedMachine(RuleBasedStateMachine):
         return False, []
 
     # -- plumbing
-    def step(self, name, **kw):
+    def step(self, _rule, /, **kw):
+        name = _rule
         if self.broken:
             return
         self.trace.append([name, plain(kw)])
